@@ -62,7 +62,7 @@ def schema_cases(chk):
 def poly_cases(chk):
     rng = chk.rng
     cases = []
-    for i in range(120 if chk.tier == "quick" else 1500):
+    for i in range(120 if chk.tier == "quick" else 8000):
         n = rng.choice([1, 2, 2, 3])
         rows = rng.choice([1, 2, 2, 3])
         A = [gen.vec(rng, n, pzero=0.25) for _ in range(rows)]
@@ -95,7 +95,7 @@ def slice_cases(chk):
     rng = chk.rng
     cases = []
     shapes = gen.shapes_upto(2, 2)
-    for i in range(60 if chk.tier == "quick" else 800):
+    for i in range(60 if chk.tier == "quick" else 4000):
         n = rng.choice([2, 3, 3, 4])
         keep = [rng.random() < 0.5 for _ in range(n)]
         if all(keep):
